@@ -10,7 +10,10 @@ RULE = ("case = (params text | None, read script of next:<ty>/opt:<ty>/parse:<ty
         "listed by `params types`), run through the real jsonrpsee_types::Params/ParamsSequence and through the extracted Coq "
         "model; generated from: type-directed arrays (matching and mismatching elements, whitespace-heavy), random nested "
         "values, scalars/objects/None as params, a fixed list of edge texts (`[ ]`, `[\\n]`, nested empties, strings holding "
-        "`],[`, missing/extra commas, Unicode white space, depth 126..129) under random scripts, and byte mutations.  "
+        "`],[`, missing/extra commas, Unicode white space, depth 126..129) under random scripts, and byte mutations; thorough adds "
+        "every ordered pair of sequence reads over the universe on 5 arrays.  Direct oracle (Python json.loads + a small type checker, "
+        "independent of Coq): on JSON texts every read equals the element at its position decoded at the type / absent / -32602, "
+        "parse/one equal the decoded whole value; on every text: only -32602, no panic, no element after a failed read.  "
         "distinct non-trivial = distinct result lines containing at least one decoded value")
 TRUSTED = [
     "translator tools/translate.py:error_codes (the -32602 constant is read from types/src/error.rs)",
@@ -24,7 +27,10 @@ ASSUMPTIONS = [
     "relative tolerance 1e-14 (serde_json's default, non-float_roundtrip, float parser is not correctly rounded, e.g. 9007199254740993.0, "
     "2.5e-31); literals outside the f64 range (1e999), which serde rejects, are outside the generators",
     "which serde error message is produced is not compared: every failure is reduced to its code",
-    "the theorems are stated for the text Params stores (Params::new trims Unicode white space); C16_new_keeps_json links it to the raw text",
+    "the theorems speak about texts that a plain JSON parse accepts (JSON white space only around the value); texts that are JSON only "
+    "after Params::new's Unicode trim are covered by C16_typed_agrees_stored and by the model diff, the direct oracle is silent there",
+    "texts that are not JSON (never produced by the request parser) are only required to give -32602 / no panic / no element after a "
+    "failed read: e.g. `[1 [2]]` and `[1\u00a0,2]` are read as two elements by the code and by the model",
 ]
 
 U64MAX, I64MIN, I64MAX = 2**64 - 1, -2**63, 2**63 - 1
@@ -90,12 +96,17 @@ def norm_num(lex):
     return ("float", repr(f))
 
 
+class Obj:
+    """an object as written: every member, duplicates included (serde rejects a bad string even in a shadowed member)"""
+    def __init__(self, pairs):
+        self.pairs = pairs
+
+
 def loads(text):
     """text (str) -> tagged tree; raises on anything serde_json would reject (within the generators' domain)."""
-    v = json.loads(text, parse_int=norm_num, parse_float=norm_num, parse_constant=_const,
-                   object_pairs_hook=lambda ps: dict(ps))
+    v = json.loads(text, parse_int=norm_num, parse_float=norm_num, parse_constant=_const, object_pairs_hook=Obj)
     check(v, 0)
-    return v
+    return plain(v)
 
 
 def check(v, d):
@@ -107,12 +118,21 @@ def check(v, d):
             raise Bad("depth")
         for x in v:
             check(x, d + 1)
-    elif isinstance(v, dict):
+    elif isinstance(v, Obj):
         if d + 1 > 127:
             raise Bad("depth")
-        for k, x in v.items():
+        for k, x in v.pairs:
             check(k, d + 1)
             check(x, d + 1)
+
+
+def plain(v):
+    """serde_json::Value view: the last duplicate of a key wins"""
+    if isinstance(v, list):
+        return [plain(x) for x in v]
+    if isinstance(v, Obj):
+        return {k: plain(x) for k, x in v.pairs}
+    return v
 
 
 NO = object()
